@@ -20,6 +20,7 @@ import (
 	"sync"
 	"time"
 
+	"github.com/bartventer/httpcache"
 	"github.com/bartventer/httpcache/store"
 	"github.com/bartventer/httpcache/store/driver"
 	"github.com/bartventer/httpcache/store/expapi"
@@ -218,7 +219,7 @@ func RunKV(sc *KVScenario, log *EventLog, workDir string) error {
 	for i := range sc.Ops {
 		op := &sc.Ops[i]
 		ev := M{"ev": "kv", "op": op.Op, "k": op.K, "v": canon[op.V], "p": op.P, "ok": 0, "nx": 0, "rv": -1, "torn": 0, "keys": []int{},
-			"unknown": 0, "alias": 0, "st": 0, "plain": 0, "samect": 0, "how": op.How, "errs": "", "expect": 0, "cut": op.Cut}
+			"unknown": 0, "alias": 0, "st": 0, "plain": 0, "samect": 0, "how": op.How, "k2": op.K2, "errs": "", "expect": 0, "cut": op.Cut}
 		switch op.Op {
 		case "set":
 			before := snapshotFiles(r.files())
@@ -246,7 +247,8 @@ func RunKV(sc *KVScenario, log *EventLog, workDir string) error {
 					lastVal[op.K] = op.V
 				}
 				if sc.Backend == "fsenc" {
-					ev["plain"] = plainOnDisk(after, r.vals[op.V])
+					// only what this operation wrote: an earlier phase without encryption may have left plaintext behind
+					ev["plain"] = plainOnDisk(changedFiles(before, after), r.vals[op.V])
 				}
 			}
 		case "get":
@@ -334,6 +336,74 @@ func RunKV(sc *KVScenario, log *EventLog, workDir string) error {
 				}
 			}
 			ev["ok"] = b2i(os.WriteFile(f, b, 0o644) == nil)
+		case "tamper_all":
+			// every file under the store directory is damaged
+			n := 0
+			for _, f := range r.files() {
+				b, err := os.ReadFile(f)
+				if err != nil {
+					continue
+				}
+				switch op.How {
+				case "flip":
+					if len(b) > 0 {
+						b[op.Pos%len(b)] ^= 1 << uint(op.Pos%8)
+					}
+				case "trunc":
+					if len(b) > 0 {
+						b = b[:op.Pos%len(b)]
+					}
+				default:
+					b = append(b, byte(op.Pos), 0x00, 0x41)
+				}
+				if os.WriteFile(f, b, 0o644) == nil {
+					n++
+				}
+			}
+			ev["ok"] = 1
+			ev["st"] = n
+		case "rt_store", "rt_get":
+			// the transport on top of the store as it is open now: a cacheable response whose body is the value
+			// (rt_store) or a response nobody has seen before (rt_get: value id 100 + position of the operation)
+			body := []byte(fmt.Sprintf("FRESH-BODY-%d-%s", i, sc.ID))
+			if op.Op == "rt_store" {
+				body = r.vals[op.V]
+			}
+			calls := 0
+			up := rtFunc(func(req *http.Request) (*http.Response, error) {
+				calls++
+				h := http.Header{}
+				h.Set("Cache-Control", "max-age=100000")
+				h.Set("Date", time.Now().UTC().Format(http.TimeFormat))
+				h.Set("Content-Type", "application/octet-stream")
+				return &http.Response{StatusCode: 200, Status: "200 OK", Proto: "HTTP/1.1", ProtoMajor: 1, ProtoMinor: 1, Header: h,
+					Body: io.NopCloser(bytes.NewReader(body)), ContentLength: int64(len(body)), Request: req}, nil
+			})
+			before := snapshotFiles(r.files())
+			tr := httpcache.NewTransport("verif://"+r.name, httpcache.WithUpstream(up))
+			u := "http://rt.example/resource"
+			req, _ := http.NewRequest(http.MethodGet, u, nil)
+			if op.Op == "rt_store" {
+				req.Header.Set("Cache-Control", "no-cache") // whatever is stored, this one comes from the origin
+			}
+			resp, err := tr.RoundTrip(req)
+			if err != nil {
+				ev["errs"] = err.Error()
+				break
+			}
+			got, rerr := io.ReadAll(resp.Body)
+			resp.Body.Close()
+			ev["ok"] = b2i(rerr == nil && resp.StatusCode == 200)
+			ev["st"] = calls
+			ev["rv"], ev["torn"] = r.identify(got)
+			if strings.HasPrefix(string(got), "FRESH-BODY-") {
+				var j int
+				fmt.Sscanf(string(got), "FRESH-BODY-%d-", &j)
+				ev["rv"] = 100 + j
+			}
+			if op.Op == "rt_store" && sc.Backend == "fsenc" {
+				ev["plain"] = plainOnDisk(changedFiles(before, r.files()), r.vals[op.V])
+			}
 		case "api_get", "api_del":
 			method := http.MethodGet
 			if op.Op == "api_del" {
@@ -692,3 +762,21 @@ func changedFile(before map[string][]byte, after []string) (string, int) {
 	}
 	return found, 1
 }
+
+func changedFiles(before map[string][]byte, after []string) []string {
+	var out []string
+	for _, f := range after {
+		b, err := os.ReadFile(f)
+		if err != nil {
+			continue
+		}
+		if old, ok := before[f]; !ok || !bytes.Equal(old, b) {
+			out = append(out, f)
+		}
+	}
+	return out
+}
+
+type rtFunc func(*http.Request) (*http.Response, error)
+
+func (f rtFunc) RoundTrip(r *http.Request) (*http.Response, error) { return f(r) }
